@@ -1,12 +1,14 @@
 import RxModel.Sched.Chain
 import RxModel.Lemmas.Multi
+import RxModel.Lemmas.ChainRateMain
+import RxModel.Lemmas.ChainRateLast
 /-
   C09 — Rate-limiting operators never invent, duplicate or reorder items.
   (sample: RxModel/Props/C04.lean `C04_sample`; scheduler-using operators: the
   chain model of RxModel/Sched/Chain.lean; theorems are added as they are proved)
 -/
 namespace Rx.T
-open Rx
+open Rx Rx.Spec
 
 /-- buffer_with_time / buffer_with_count_and_time never release an empty buffer. -/
 theorem C09_flush_nonempty (data : List Val) : ∀ n ∈ flushBuf data, ∃ v, n = .next (Val.ofList data) ∧ data ≠ [] ∧ v = data := by
@@ -44,5 +46,166 @@ theorem C09_buffer_bounded (d c j : Nat) (alive : Bool) (data : List Val) (task 
 theorem C09_sample (tl : Timeline) :
     (Kind2.sample.init.runT tl).2 = mk (Spec.sampleFrom none (Spec.cutS tl).1) (Spec.cutS tl).2 :=
   sample_runT none tl
+
+/-! ## The chain model, every event list
+
+  World: `hot 0 → stage → probe` (`rateRun st evs`: subscribe, then the events
+  `evs`).  `evs` is ANY list of `TW.Ev`: emissions of any subject, clock advances,
+  `fire i` / `poll i` in any order (prompt, late, spurious, never), `run`, `unsub`,
+  repeated `sub`.  No bound on its length.  `itemsEmitted evs` = the items subject 0
+  emits before its first terminal.  (The proofs do not use scheduler timing: the
+  invariant only needs that every task body in the scheduler is one of the
+  stage's own — `Sched.Benign` — which every scheduler operation preserves.)
+
+  The subsequence statements need no distinctness hypothesis; with distinct
+  tags (`(itemsEmitted evs).Nodup`) they give "each source item at most once"
+  (`…_nodup`). -/
+
+/-- (S3) buffer_with_time (`cnt = none`) / buffer_with_count_and_time (`cnt = some c`,
+    `1 ≤ c`): the concatenation of the delivered buffers is a PREFIX of the items the
+    source emitted (nothing invented, duplicated, reordered or skipped) — also
+    after `unsub`, so the hypothesis "no `.unsub` happened" is not needed —, every
+    delivered value is a genuine non-empty buffer, and no buffer exceeds the
+    count limit. -/
+theorem C09_buffer_subsequence (d : Nat) (cnt : Option Nat) (hc : ∀ c, cnt = some c → 1 ≤ c)
+    (evs : List TW.Ev) :
+    released (rateRun (.bufTime d cnt true [] none) evs).log <+: itemsEmitted evs ∧
+    (∀ b ∈ items (rateRun (.bufTime d cnt true [] none) evs).log,
+        valToList b ≠ [] ∧ Val.ofList (valToList b) = b) ∧
+    (∀ c, cnt = some c → ∀ b ∈ items (rateRun (.bufTime d cnt true [] none) evs).log,
+        (valToList b).length ≤ c) := by
+  obtain ⟨alive, data, a, T, I⟩ := buf_final d cnt hc evs
+  exact ⟨prefix_left I.pre, fun b hb => ⟨(I.bufs b hb).1, (I.bufs b hb).2.1⟩,
+    fun c h b hb => (I.bufs b hb).2.2 c h⟩
+
+/-- (S3) with distinct tags no item is delivered twice (in any buffers). -/
+theorem C09_buffer_nodup (d : Nat) (cnt : Option Nat) (hc : ∀ c, cnt = some c → 1 ≤ c)
+    (evs : List TW.Ev) (hd : (itemsEmitted evs).Nodup) :
+    (released (rateRun (.bufTime d cnt true [] none) evs).log).Nodup :=
+  (C09_buffer_subsequence d cnt hc evs).1.sublist.nodup hd
+
+/-- (S1) debounce: the items at the probe are a subsequence of the items the source
+    emitted: only source items, in source order, none more often than emitted. -/
+theorem C09_debounce_subsequence (d : Nat) (evs : List TW.Ev) :
+    (items (rateRun (.debounce d true none none) evs).log).Sublist (itemsEmitted evs) :=
+  (trail_final _ (init_debounce d) evs).1
+
+theorem C09_debounce_nodup (d : Nat) (evs : List TW.Ev) (hd : (itemsEmitted evs).Nodup) :
+    (items (rateRun (.debounce d true none none) evs).log).Nodup :=
+  (C09_debounce_subsequence d evs).nodup hd
+
+/-- (S2) throttle, every edge mode (leading, trailing, leading+trailing): the same.
+    For `all` this is exactly what the fix "the item emitted on the leading edge
+    is not also the trailing candidate" established. -/
+theorem C09_throttle_subsequence (d : Nat) (e : Edge) (evs : List TW.Ev) :
+    (items (rateRun (.throttle d e true none none) evs).log).Sublist (itemsEmitted evs) :=
+  (trail_final _ (init_throttle d e) evs).1
+
+theorem C09_throttle_nodup (d : Nat) (e : Edge) (evs : List TW.Ev) (hd : (itemsEmitted evs).Nodup) :
+    (items (rateRun (.throttle d e true none none) evs).log).Nodup :=
+  (C09_throttle_subsequence d e evs).nodup hd
+
+/-- (S4) the probe log is well formed: items, at most one terminal, nothing after it. -/
+theorem C09_debounce_wf (d : Nat) (evs : List TW.Ev) :
+    WF (rateRun (.debounce d true none none) evs).log :=
+  (trail_final _ (init_debounce d) evs).2
+
+theorem C09_throttle_wf (d : Nat) (e : Edge) (evs : List TW.Ev) :
+    WF (rateRun (.throttle d e true none none) evs).log :=
+  (trail_final _ (init_throttle d e) evs).2
+
+theorem C09_buffer_wf (d : Nat) (cnt : Option Nat) (hc : ∀ c, cnt = some c → 1 ≤ c) (evs : List TW.Ev) :
+    WF (rateRun (.bufTime d cnt true [] none) evs).log := by
+  obtain ⟨alive, data, a, T, I⟩ := buf_final d cnt hc evs
+  exact I.wf
+
+/-- No loss: once `complete` has reached the probe, the delivered buffers
+    concatenate to the WHOLE sequence the source emitted. -/
+theorem C09_buffer_complete (d : Nat) (cnt : Option Nat) (hc : ∀ c, cnt = some c → 1 ≤ c)
+    (evs : List TW.Ev) (h : Notif.complete ∈ (rateRun (.bufTime d cnt true [] none) evs).log) :
+    released (rateRun (.bufTime d cnt true [] none) evs).log = itemsEmitted evs := by
+  obtain ⟨alive, data, a, T, I⟩ := buf_final d cnt hc evs
+  exact (I.compl h).1
+
+/-- Beyond the safety clause — debounce "always [delivers] the final one on
+    completion": once `complete` is at the probe, the last item at the probe is the
+    last item the source emitted (for every timing of the timers). -/
+theorem C09_debounce_final (d : Nat) (evs : List TW.Ev)
+    (h : Notif.complete ∈ (rateRun (.debounce d true none none) evs).log) :
+    (items (rateRun (.debounce d true none none) evs).log).getLast? = (itemsEmitted evs).getLast? :=
+  last_final (.debounce d true none none) rfl rfl rfl evs h
+
+/-- The same for throttle with a trailing edge (`trailing`, `all`): the last source
+    item is never lost when the source completes.  (`leading` drops it by design,
+    see the `example` below.) -/
+theorem C09_throttle_trailing_final (d : Nat) (e : Edge) (he : e.hasTrailing = true) (evs : List TW.Ev)
+    (h : Notif.complete ∈ (rateRun (.throttle d e true none none) evs).log) :
+    (items (rateRun (.throttle d e true none none) evs).log).getLast? = (itemsEmitted evs).getLast? :=
+  last_final (.throttle d e true none none) rfl he rfl evs h
+
+/-! ### Non-vacuity: concrete event lists (the model is executable) -/
+
+/-- The formerly buggy case — throttle, leading+trailing, a lone item, the window
+    expires, then completion: the item is at the probe exactly once. -/
+example : (rateRun (.throttle 5 .all true none none)
+      [.emit 0 (.next (.int 7)), .run, .adv 5, .run, .emit 0 .complete]).log
+    = [.next (.int 7), .complete] := by decide
+
+example : (rateRun (.throttle 5 .all true none none)
+      [.emit 0 (.next (.int 1)), .emit 0 (.next (.int 2)), .run, .adv 5, .run,
+       .emit 0 (.next (.int 3)), .emit 0 .complete]).log
+    = [.next (.int 1), .next (.int 2), .next (.int 3), .complete] := by decide
+
+example : (rateRun (.throttle 5 .trailing true none none)
+      [.emit 0 (.next (.int 1)), .emit 0 (.next (.int 2)), .run, .adv 5, .run]).log
+    = [.next (.int 2)] := by decide
+
+example : (rateRun (.throttle 5 .leading true none none)
+      [.emit 0 (.next (.int 1)), .emit 0 (.next (.int 2)), .run, .adv 5, .run,
+       .emit 0 (.next (.int 3))]).log
+    = [.next (.int 1), .next (.int 3)] := by decide
+
+/-- throttle with an executor driven by hand (late fires, spurious polls). -/
+example : (rateRun (.throttle 5 .all true none none)
+      [.emit 0 (.next (.int 1)), .emit 0 (.next (.int 2)), .poll 0, .adv 9, .fire 0,
+       .emit 0 (.next (.int 3)), .poll 0, .emit 0 (.next (.int 4)), .poll 0, .adv 5, .fire 0,
+       .poll 0, .emit 0 .complete]).log
+    = [.next (.int 1), .next (.int 3), .next (.int 4), .complete] := by decide
+
+example : (rateRun (.debounce 5 true none none)
+      [.emit 0 (.next (.int 1)), .run, .adv 2, .emit 0 (.next (.int 2)), .run, .adv 5, .run,
+       .emit 0 (.next (.int 3)), .emit 0 .complete]).log
+    = [.next (.int 2), .next (.int 3), .complete] := by decide
+
+/-- debounce, hand-driven executor, error at the end: the pending item 3 is dropped. -/
+example : (rateRun (.debounce 5 true none none)
+      [.emit 0 (.next (.int 1)), .poll 0, .adv 9, .emit 0 (.next (.int 2)), .poll 1, .adv 5,
+       .fire 1, .fire 0, .poll 0, .poll 0, .poll 0, .emit 0 (.next (.int 3)),
+       .emit 0 (.error 4)]).log
+    = [.next (.int 2), .error 4] := by decide
+
+/-- buffer_with_count_and_time (count 2): [1,2] by count, [3] by the timer, [4] on completion;
+    `complete` is in the log, the hypothesis of `C09_buffer_complete` is satisfiable. -/
+example : (rateRun (.bufTime 5 (some 2) true [] none)
+      [.emit 0 (.next (.int 1)), .emit 0 (.next (.int 2)), .emit 0 (.next (.int 3)), .adv 5, .run,
+       .emit 0 (.next (.int 4)), .emit 0 .complete]).log
+    = [.next (Val.ofList [.int 1, .int 2]), .next (Val.ofList [.int 3]),
+       .next (Val.ofList [.int 4]), .complete] := by decide
+
+/-- buffer_with_time with an `unsub`: the released buffers stay a (strict) prefix. -/
+example : released (rateRun (.bufTime 5 none true [] none)
+      [.emit 0 (.next (.int 1)), .emit 0 (.next (.int 2)), .adv 5, .run, .emit 0 (.next (.int 3)),
+       .unsub, .emit 0 (.next (.int 4)), .adv 5, .run]).log
+    = [.int 1, .int 2] := by decide
+
+example : itemsEmitted [.emit 0 (.next (.int 1)), .emit 1 (.next (.int 9)), .adv 5, .run,
+      .emit 0 (.next (.int 3)), .unsub, .emit 0 .complete, .emit 0 (.next (.int 4))]
+    = [.int 1, .int 3] := by decide
+
+/-- `leading` loses the last item of a window (documented behaviour): the hypothesis
+    `hasTrailing` of `C09_throttle_trailing_final` cannot be dropped. -/
+example : (rateRun (.throttle 5 .leading true none none)
+      [.emit 0 (.next (.int 1)), .emit 0 (.next (.int 2)), .emit 0 .complete]).log
+    = [.next (.int 1), .complete] := by decide
 
 end Rx.T
